@@ -10,3 +10,16 @@ package tools
 //@   props C15
 //@   ensures result0 == ite(in == 0, at, time_add(from, in))
 //@   ensures result1 == (result0 != time_zero && time_after(time_add(time_now(), until), result0))
+
+// Undent is git-lfs's own normalisation of hook text (uninterpreted).
+//@ func Undent
+//@   assumed
+//@   props C20
+//@   pure
+//@   ensures result == str_undent(str)
+
+// MkdirAll only creates directories.
+//@ func MkdirAll
+//@   assumed
+//@   props C20 C13
+//@   modifies fresh
